@@ -5,6 +5,9 @@ Correspondence: (a) `df_util.replace_ref` against `Assemble.replaceRef`, exhaust
 digits-only reference name); the real delimiter checker against `Assemble.delimOk` on the same strings;
 (a2) two different references in one text, both processing orders, exhaustively on the accepted, balanced
 texts of <= N tokens over {R, blank, ',', '(', ')', {a}, {b}} with each reference once as a whole tag;
+(c) `ColumnMapper._value_handler` / `_category_handler` and the filter of `combine_dataframe` directly against
+`Assemble.valueHandler` (`isMissing`) / `categoryHandler` / `keep` on every cell of <= 3 characters over the
+characters of n/a, N, A, blank, #, 0, x (oracle: only exactly `n/a` and the empty cell are missing);
 (b) `TabularInput(table, sidecar)`: column kinds, reference set, transformer columns and their order,
 `assemble(skip_curly_braces=True)` cells and `list(series_a)` against `Assemble.kind / refsOf / activeCols /
 transformed / seriesWith`, three consecutive calls on one object.
@@ -51,6 +54,12 @@ THEOREMS = [
     "HedVerif.C06.findRefs_finds",
     "HedVerif.C06.refsOf_finds",
     "HedVerif.C06.two_refs_bounded",
+    "HedVerif.C06.isMissing_iff",
+    "HedVerif.C06.isMissing_near_misses",
+    "HedVerif.C06.valueHandler_spec",
+    "HedVerif.C06.keep_iff_not_missing",
+    "HedVerif.C06.categoryHandler_spec",
+    "HedVerif.C06.removal_is_tree_pruning_bounded",
     "HedVerif.C06.ref_order_blank_counterexample",
 ]
 BUDGET = {"quick": 900, "thorough": 3600}
@@ -60,6 +69,17 @@ TOKENS = ["R", " ", ",", "(", ")"]
 NAMES = ["a", "b", "c", "resp", "1", "20", "x_y", "k-1", "Z", "Ab"]
 TAGS = ["Red", "Blue", "Green", "Square", "Item/Thing", "(Circle, Big)", "Sensory-event", "{x y}"]
 VTAGS = ["Label/#", "Age/# years", "Description/#"]
+MISSING = ["n/a", ""]                                   # the only cells the property calls missing
+SUBSTR = ["n", "a", "/", "n/", "/a"]                    # non-empty proper substrings of "n/a"
+NEAR = SUBSTR + ["N/A", "n/a ", " n/a", "na", "nan", "NaN", "None", "NA", "null", "0", "-", "x", "k", "1"]
+PANDAS_NA = {"N/A", "nan", "NaN", "None", "NA", "null", "NULL", "#N/A", "<NA>", "-nan", "-NaN", "#NA", "n/a", ""}
+KEYPOOL = ["k1", "k2", "k3"] + SUBSTR + ["N/A", "na", "nan", "None", "0", "-", "n/a "]
+
+
+def near_cell(rng, names):
+    """a cell that is *not* missing but looks like it, or equals a column name"""
+    return rng.choice(NEAR + NEAR + list(names) + ["HED"])
+
 
 
 # ------------------------------------------------------------------------------------- helpers
@@ -391,7 +411,12 @@ def gen_pair(rng):
         k = kinds[nme]
         is_host = nme in hosts and refs
         if k == "categorical":
-            keys = ["k1", "k2", "k3"][:rng.randint(2, 3)]
+            if rng.random() < 0.55:
+                keys = ["k1", "k2", "k3"][:rng.randint(2, 3)]
+            else:                       # near-miss keys; rarely the missing cells themselves are keys
+                keys = rng.sample(KEYPOOL + names, rng.randint(2, 3))
+                if rng.random() < 0.12:
+                    keys[0] = rng.choice(MISSING)
             trees = {}
             for key in keys:
                 if is_host and (not placed or rng.random() < 0.4):
@@ -436,14 +461,19 @@ def gen_pair(rng):
     for _ in range(rng.randint(1, 4)):
         row = []
         for c in header:
+            u = rng.random()
             if c == "HED":
-                row.append(rng.choice(["Purple", "(Pink, Dot)", "n/a", "n/a", "", "Orange, Cross"]))
+                row.append(rng.choice(["Purple", "(Pink, Dot)", "Orange, Cross"]) if u < 0.4 else
+                           rng.choice(MISSING + ["n/a"]) if u < 0.65 else near_cell(rng, names))
             elif c in spec and spec[c]["kind"] == "categorical":
-                row.append(rng.choice(list(spec[c]["trees"]) + ["n/a", "", "zz"]))
+                row.append(rng.choice(list(spec[c]["trees"])) if u < 0.45 else
+                           rng.choice(MISSING + ["n/a"]) if u < 0.65 else
+                           "zz" if u < 0.7 else near_cell(rng, names))
             elif c in spec and spec[c]["kind"] == "value":
-                row.append(rng.choice(["3", "abc", "7.5", "n/a", "n/a", ""]))
+                row.append(rng.choice(["3", "abc", "7.5"]) if u < 0.35 else
+                           rng.choice(MISSING + ["n/a"]) if u < 0.6 else near_cell(rng, names))
             else:
-                row.append(rng.choice(["k1", "x", "n/a", "", "4"]))
+                row.append(rng.choice(["k1", "x", "n/a", "", "4"]) if u < 0.6 else near_cell(rng, names))
         rows.append(row)
     return spec, header, rows
 
@@ -505,6 +535,11 @@ def impl_pair(spec, header, rows, via_file, tmpdir):
         ti = TabularInput(df, sidecar=sidecar, name="gen")
     res = {"table": [[str(x) for x in r] for r in ti.dataframe.values.tolist()],
            "header": [str(c) for c in ti.dataframe.columns]}
+    # what the .tsv loader (outside this property) did to the cells that were written
+    res["loader_na"] = sorted({w for rw, rl in zip(rows, res["table"]) for w, l in zip(rw, rl)
+                               if via_file and w not in MISSING and l == "n/a"})
+    res["loader_other"] = sorted({w for rw, rl in zip(rows, res["table"]) for w, l in zip(rw, rl)
+                                  if via_file and w not in MISSING and l != w and l != "n/a"})
     before_frame, before_dict = frame_state(ti.dataframe), copy.deepcopy(sidecar.loaded_dict)
     res["kinds"] = {c: (m.column_type.value if m.column_type is not None else "none")
                     for c, m in sidecar.column_data.items()}
@@ -528,6 +563,12 @@ def judge_pair(ctx, ok, case, spec, impl, model):
              nontrivial=nrefs > 0 and len(impl["columns"]) >= 2,
              sample={"sidecar": case["sidecar"], "header": header, "rows": rows[:2]} if nrefs == 2 else None)
     ctx.count(f"refs={nrefs}")
+    for w in impl.get("loader_na", []):
+        ctx.count("tsv-loader-reads-cell-as-n/a:" + w)      # pandas default NA strings, not this property
+        if w not in PANDAS_NA:
+            ctx.violation("loader-keeps-cell-text", case, {"written": w, "loaded": "n/a"})
+    for w in impl.get("loader_other", []):
+        ctx.violation("loader-keeps-cell-text", case, {"written": w})
     ctx.count(f"active-columns={len(impl['columns'])}")
     # ---- correspondence
     mk = {c: k for c, k in model["kinds"]}
@@ -569,6 +610,15 @@ def judge_pair(ctx, ok, case, spec, impl, model):
                                                   and cells.get(r) not in spec[r]["trees"]))]
         if na_ref:
             ctx.count("row-with-absent-referenced-cell")
+        for c in impl["columns"]:
+            x = cells.get(c)
+            kind = "hed" if c == "HED" else spec[c]["kind"] if c in spec else "other"
+            if x in SUBSTR:
+                ctx.count(f"cell-is-proper-substring-of-n/a:{kind}" + (":referenced" if c in impl["refs"] else ""))
+            elif x not in MISSING and x in NEAR + list(spec) + ["HED"]:
+                ctx.count(f"cell-near-miss-or-column-name:{kind}" + (":referenced" if c in impl["refs"] else ""))
+            if kind == "categorical" and x in MISSING and x in spec[c]["trees"]:
+                ctx.count("categorical-entry-keyed-by-missing-cell-selected")   # reported, see module docstring
         if any(s["kind"] == "malformed" and cells.get(c) not in (None, "", "n/a") for c, s in spec.items()):
             ctx.count("row-malformed-column-passes-raw-cell")
         # known family: the text selected for this row holds the same absent reference twice, delimiters between
@@ -587,6 +637,45 @@ def judge_pair(ctx, ok, case, spec, impl, model):
             ctx.violation("row-delimiter-wellformed", {**case, "row": i}, {"got": got}, signature=sig)
 
 
+def part_c(ctx):
+    """the two cell handlers and the row filter directly: every cell of <= 3 characters over the characters of
+    `n/a`, its upper-case forms, blank, `#`, `0`, `x` (all substrings, paddings and spellings of n/a among them)"""
+    import pandas as pd
+    from hed.models.column_mapper import ColumnMapper
+    from hed.models.base_input import BaseInput
+    alphabet = "n/aNA #0x"
+    cells = [""] + ["".join(t) for k in (1, 2, 3) for t in itertools.product(alphabet, repeat=k)]
+    cells += ["n/a ", " n/a", "n/a/", "/n/a", "n/an/a", "nan", "NaN", "None", "null", "n/a\t"]
+    entries = [["n", "E1"], ["N/A", "E2"], ["n/a", "E3"], ["", "E4"], ["na", "E5"], ["a", "E6"]]
+    kept = list(BaseInput.combine_dataframe(pd.DataFrame({"c": cells}, dtype=str)))
+    for template in ("Label/#", "(Label/#, Red)", "#", "n/a#", "Age/# years"):
+        m = ctx.model.batch([{"op": "c06.handlers", "template": template, "cells": cells, "entries": entries}])[0]
+        for i, cell in enumerate(cells):
+            case = {"handler_cell": cell, "template": template, "entries": entries}
+            ctx.case(("h", template, cell), nontrivial=cell in SUBSTR or cell in MISSING or "n/a" in cell.lower())
+            try:
+                v = ColumnMapper._value_handler(template, cell)
+                c = ColumnMapper._category_handler(dict(entries), cell)
+            except Exception as e:
+                ctx.violation("handler-raised", case, f"{type(e).__name__}: {e}")
+                continue
+            if v != m["value"][i]:
+                ctx.disagree("Assemble.valueHandler/isMissing = ColumnMapper._value_handler", case, m["value"][i], v)
+            if c != m["category"][i]:
+                ctx.disagree("Assemble.categoryHandler = ColumnMapper._category_handler", case, m["category"][i], c)
+            if (kept[i] == cell and cell != "") != m["keep"][i]:
+                ctx.disagree("Assemble.keep = filter of combine_dataframe", case, m["keep"][i], kept[i])
+            # the property: only exactly n/a and the empty cell are missing
+            missing = cell in MISSING
+            if v != ("n/a" if missing else template.replace("#", cell)):
+                ctx.violation("value-cell-missing-only-if-n/a-or-empty", case, {"got": v})
+            if (kept[i] == "") != missing:
+                ctx.violation("row-item-skipped-only-if-n/a-or-empty", case, {"got": kept[i]})
+            if c != dict(entries).get(cell, ""):
+                ctx.violation("categorical-entry-is-the-one-keyed-by-the-cell", case, {"got": c})
+    ctx.extra["handler_cells"] = len(cells)
+
+
 def _impl_worker(args):
     spec, header, rows, via_file, tmpdir = args
     try:
@@ -603,7 +692,7 @@ def part_b_batched(ctx, ok):
     tmpdir = tempfile.mkdtemp(prefix="hedverif_c06_")
     pool = None if ctx.quick() else multiprocessing.get_context("fork").Pool(4)
     try:
-        n = 2500 if ctx.quick() else 42000
+        n = 2000 if ctx.quick() else 42000
         pairs = FIXED_PAIRS() + [gen_pair(ctx.rng) for _ in range(n)]
         for lo in range(0, len(pairs), 1000):
             chunk = [(spec, header, rows, i % 7 == 3, tmpdir) for i, (spec, header, rows)
@@ -673,8 +762,18 @@ def run(ctx):
                          "references incl. {HED} placed alone/first/middle/last/in parentheses/sole group member/nested) x "
                          "tables over keys, n/a, empty, unknown; shuffled file order; DataFrame and .tsv input; "
                          "non-trivial = at least one reference and two transformer columns")
+    t = {"obligations": round(ctx.elapsed(), 1)}
     part_a(ctx, ok)
+    t["replace_ref streams"] = round(ctx.elapsed(), 1)
+    part_c(ctx)
+    t["handlers"] = round(ctx.elapsed(), 1)
     part_b_batched(ctx, ok)
+    t["sidecar x table"] = round(ctx.elapsed(), 1)
+    ctx.extra["elapsed_after_phase_s"] = t
+    ctx.notes.append("reported, not judged: (1) the .tsv loader (pandas default NA strings) reads N/A, NA, nan, NaN, None, "
+                     "null, NULL, #N/A, <NA>, -nan as n/a before assembly (histogram tsv-loader-reads-cell-as-n/a); "
+                     "(2) a categorical entry keyed 'n/a' or '' in the sidecar is selected by an n/a / empty cell "
+                     "(_category_handler has no missing-cell test); (3) a blank-only HED cell is kept as an item")
     ctx.notes.append("referenced columns carry no references themselves (the iteration order of the reference set is "
                      "taken from the implementation and the model is also run with the reversed order)")
     ctx.notes.append("ASCII names and blanks; DataFrame index is the default RangeIndex")
@@ -686,7 +785,9 @@ def replay(ctx, rec):
     if not case:
         print("nothing to replay (obligation-only record):", rec.get("broken_obligations"))
         return
-    if "text" in case and "a" in case:
+    if "handler_cell" in case:
+        part_c(ctx)
+    elif "text" in case and "a" in case:
         check_two(ctx, ok, [case["text"]], case["a"], case["b"])
     elif "text" in case:
         check_replace(ctx, [case["text"]], case.get("name", "c"), case.get("value", "n/a"), ok)
